@@ -127,21 +127,25 @@ def run_case(spec, j):
   for alias, target in ALIASES.items():
     if alias not in params:
       continue
-    val = 7 if alias != 'convergence_threshold' else 0.123
-    with Quiet() as q:
-      try:
-        e = cls(**{alias: val})
-      except Exception as ex:
-        j.violated('C18.alias-maps', dict(det0, alias=alias,
-                                          raised=repr(ex)[:200]))
-        continue
-    gp = e.get_params(deep=False)
-    j.check('C18.alias-maps', gp[target] == val and gp[alias] == 'deprecated',
-            dict(det0, alias=alias, target=target, got=gp[target],
-                 alias_value=gp[alias]))
-    fw = q.of(FutureWarning)
-    j.check('C18.alias-one-warning', len(fw) == 1,
-            dict(det0, alias=alias, n_warnings=len(fw)))
+    main = 7 if alias != 'convergence_threshold' else 0.123
+    # the value given through the alias is the replacement's value whatever
+    # it is: falsy ones (0, 0.0, False, None, empty) included
+    for val in (main, 0, 0.0, False, None, '', Sentinel()):
+      with Quiet() as q:
+        try:
+          e = cls(**{alias: val})
+        except Exception as ex:
+          j.violated('C18.alias-maps', dict(det0, alias=alias, value=repr(val),
+                                            raised=repr(ex)[:200]))
+          continue
+      gp = e.get_params(deep=False)
+      j.check('C18.alias-maps',
+              gp[target] is val and gp[alias] == 'deprecated',
+              dict(det0, alias=alias, target=target, value=repr(val),
+                   got=repr(gp[target]), alias_value=gp[alias]))
+      fw = q.of(FutureWarning)
+      j.check('C18.alias-one-warning', len(fw) == 1,
+              dict(det0, alias=alias, value=repr(val), n_warnings=len(fw)))
     with Quiet() as q:
       cls()
     j.check('C18.alias-no-warning-by-default', len(q.of(FutureWarning)) == 0,
